@@ -380,6 +380,93 @@ pub fn run(ctx: &mut Ctx) {
             ctx.rep.sample(J::obj().set("source", J::s(&f.source)).set("bytes", J::i(f.bytes.len() as u64)).set("streaming_result", J::s(&trunc(&run_streaming(&f.bytes, &[], &DEFAULT_OPTS)))));
         }
     }
+    let mut r = rng.fork(0x3c4);
+    mixed_calls_part(ctx, &mut r);
+}
+
+/// highly compressible images whose raw size lies just above a power-of-two buffer size of the inflate window (32 KiB,
+/// 128 KiB): with a large piece the inflater has taken in all compressed bytes while its output buffer is full, and the tail of
+/// the frame (several rows) only comes out when the data sequence is finished (`finish_compressed_chunks`) - together with the
+/// end-of-data event.  With small pieces that never happens.  (Defect D23 was found in this corner.)
+pub fn flush_carrying_files(rng: &mut Rng) -> Vec<(Vec<u8>, u32)> {
+    use crate::refpng::*;
+    let mut out = vec![];
+    for (w, h, color, depth) in [(1024u32, 32u32, 0u8, 8u8), (31, 1030, 0, 8), (15, 2050, 0, 8), (361, 363, 0, 8), (181, 181, 6, 8), (515, 16, 2, 16)] {
+        let mut img = Img::random(rng, color, depth, w, h);
+        for b in img.pixels.iter_mut() {
+            *b = 0;
+        }
+        let still = Still { img, interlace: false, filters: Filters::Uniform(0), deflater: Deflater::Level(6), split: Split::One };
+        let (cs, _) = still_chunks(&still, rng);
+        out.push((serialize(&cs), h));
+    }
+    out
+}
+
+/// Reader-level call sequences that mix row calls and frame calls, under two deliveries: the traces (cut after the first
+/// error) must be equal
+fn mixed_calls_part(ctx: &mut Ctx, rng: &mut Rng) {
+    use crate::rops::{self, Config, Op};
+    let cfg = Config::default();
+    let mut files = flush_carrying_files(rng);
+    for f in crate::props::reader_props::small_valid_files(rng, ctx.n(6, 24)) {
+        let h = png::Decoder::new(std::io::Cursor::new(&f.bytes[..])).read_info().map(|r| r.info().height).unwrap_or(1);
+        files.push((f.bytes, h));
+    }
+    for (file, h) in &files {
+        let mut seqs: Vec<Vec<Op>> = vec![];
+        // rows, then a frame call while k rows are still undelivered; rows, then next_frame_info / finish
+        for k in 0..4u32 {
+            for tail in [vec![Op::NextFrame(0)], vec![Op::NextFrame(0), Op::NextFrame(0)], vec![Op::ReadRow, Op::NextFrame(0), Op::NextRow], vec![Op::NextFrameInfo], vec![Op::Finish]] {
+                let mut v = vec![Op::ReadInfo];
+                v.extend((0..h.saturating_sub(k)).map(|i| if i % 5 == 4 { Op::ReadRow } else { Op::NextRow }));
+                v.extend(tail);
+                seqs.push(v);
+            }
+        }
+        for _ in 0..ctx.n(4, 20) {
+            let n = rng.usize(1, 30);
+            let mut v = vec![Op::ReadInfo];
+            v.extend((0..n).map(|_| rng.pick(&[Op::NextFrame(0), Op::NextRow, Op::NextRow, Op::ReadRow, Op::NextFrameInfo]).clone()));
+            seqs.push(v);
+        }
+        let n = file.len();
+        let deliveries: Vec<Vec<usize>> = vec![(1..n).collect(), (1..n).step_by(4096).collect(), (1..n).step_by(7).collect(), { let mut c: Vec<usize> = (0..6).map(|_| rng.usize(1, n - 1)).collect(); c.sort(); c }];
+        for ops in &seqs {
+            let whole = rops::run_ops(file, n, ops, &cfg);
+            for (di, cuts) in deliveries.iter().enumerate() {
+                if di > 0 && h > &200 && ops.len() > 40 && di != 1 {
+                    continue;
+                }
+                ctx.rep.eval(true, fnv64(file) ^ fnv64(rops::ops_string(ops).as_bytes()) ^ di as u64);
+                ctx.rep.count("mixed calls delivery", ["byte-wise", "4096", "7", "random"][di]);
+                let t = rops::run_ops_cuts(file, n, ops, &cfg, cuts);
+                let cut_at = |toks: &Vec<String>| -> Vec<String> { let e = toks.iter().position(|x| x.starts_with("err(")).map(|p| p + 1).unwrap_or(toks.len()); toks[..e].to_vec() };
+                let (a, b) = (cut_at(&whole.tokens), cut_at(&t.tokens));
+                if whole.panicked || t.panicked || a != b {
+                    let at = a.iter().zip(&b).position(|(x, y)| x != y).unwrap_or(a.len().min(b.len()));
+                    // is it the one recorded situation (D24)?  All rows of the frame were delivered by row calls, the final `None` was
+                    // not polled, and the next call is next_frame: whether the end of the frame's data had already been consumed
+                    // with the last row depends on the delivery.  Test: with one more row poll in front of that call (it answers
+                    // `none` under both deliveries) the two deliveries agree again.
+                    let mut class = "reader/mixed-calls-differ";
+                    if !whole.panicked && !t.panicked && at > 1 && matches!(ops.get(at), Some(Op::NextFrame(_))) && matches!(ops.get(at - 1), Some(Op::NextRow) | Some(Op::ReadRow)) {
+                        let mut ops2 = ops[..at].to_vec();
+                        ops2.push(Op::NextRow);
+                        ops2.extend_from_slice(&ops[at..]);
+                        let (w2, p2) = (rops::run_ops(file, n, &ops2, &cfg), rops::run_ops_cuts(file, n, &ops2, &cfg, cuts));
+                        if !w2.panicked && !p2.panicked && w2.tokens.get(at).map(|x| x == "none").unwrap_or(false) && p2.tokens.get(at).map(|x| x == "none").unwrap_or(false) && cut_at(&w2.tokens) == cut_at(&p2.tokens) {
+                            class = "reader/mixed-calls-differ/next_frame-after-all-rows-unpolled";
+                        }
+                    }
+                    ctx.rep.violation("oracle", if whole.panicked || t.panicked { "reader/panic" } else { class },
+                        &format!("{} rows image, calls [{}]: result {} is `{}` with the whole file in one piece and `{}` with delivery {}", h, trunc(&rops::ops_string(ops)), at,
+                            a.get(at).map(|s| s.as_str()).unwrap_or("(none)"), b.get(at).map(|s| s.as_str()).unwrap_or("(none)"), ["byte-wise", "in 4096-byte pieces", "in 7-byte pieces", "random cuts"][di]),
+                        J::obj().set("what", J::s("mixed")).set("file", J::s(&hex(file))).set("ops", J::s(&rops::ops_string(ops))).set("cuts", J::s(&cuts_str(&cuts[..cuts.len().min(3000)]))).set("delivery", J::i(di as u64)));
+                }
+            }
+        }
+    }
 }
 
 pub fn replay(ctx: &mut Ctx, case: &J) {
@@ -388,6 +475,19 @@ pub fn replay(ctx: &mut Ctx, case: &J) {
     let b = parse_cuts(case.get("cuts_b").and_then(|x| x.as_str()).unwrap_or("-"));
     let path = case.get("path").and_then(|x| x.as_str()).unwrap_or("streaming");
     ctx.rep.eval(true, fnv64(&file));
+    if case.get("what").and_then(|x| x.as_str()) == Some("mixed") {
+        use crate::rops::{self, Config};
+        let ops = rops::parse_ops(case.get("ops").and_then(|x| x.as_str()).unwrap_or(""));
+        let cuts = parse_cuts(case.get("cuts").and_then(|x| x.as_str()).unwrap_or("-"));
+        let cfg = Config::default();
+        let (a, b) = (rops::run_ops(&file, file.len(), &ops, &cfg), rops::run_ops_cuts(&file, file.len(), &ops, &cfg, &cuts));
+        println!("whole: {}\npieces: {}", trunc(&a.text()), trunc(&b.text()));
+        let cut_at = |toks: &Vec<String>| -> Vec<String> { let e = toks.iter().position(|x| x.starts_with("err(")).map(|p| p + 1).unwrap_or(toks.len()); toks[..e].to_vec() };
+        if a.panicked || b.panicked || cut_at(&a.tokens) != cut_at(&b.tokens) {
+            ctx.rep.violation("oracle", "reader/mixed-calls-differ", "the two deliveries give different results", case.clone());
+        }
+        return;
+    }
     let opts = DEFAULT_OPTS;
     match path {
         "reader" => {
